@@ -94,11 +94,13 @@ type bqTask struct {
 	q       Query
 	min     uint64
 	lastRes string
-	done    chan struct{}
-	idx     uint64
-	res     string
-	err     error
-	started time.Time
+	// received: the result of the last answer the caller got
+	received string
+	done     chan struct{}
+	idx      uint64
+	res      string
+	err      error
+	started  time.Time
 }
 
 func (t *bqTask) start(fs *fsmServer) {
@@ -119,6 +121,7 @@ func (t *bqTask) start(fs *fsmServer) {
 				// unless the item was there before (then the caller must hear that it is gone: what the
 				// scheduler believes the query has seen is not updated here)
 				if _, item, _ := t.q.Run(s, nil); item == nil || (reflect.ValueOf(item).Kind() == reflect.Ptr && reflect.ValueOf(item).IsNil()) {
+					t.lastRes = t.received // the caller still believes what it last received
 					return blockingquery.ErrNotFound
 				}
 			}
@@ -195,7 +198,7 @@ func (C06) execute(p *Plan, r *simkit.Run) *simkit.Violation {
 			// reads of one item wait differently (not-found is not an answer): always have some
 			q = singles[pickQ.IntN(len(singles))]
 		}
-		if q.NoWatch || q.NoIndex || c06Skip[q.Group] {
+		if q.NoWatch || q.NoIndex || q.UsageMetric || c06Skip[q.Group] {
 			continue
 		}
 		qr := q.Eval(c.L.State(), nil)
@@ -203,7 +206,7 @@ func (C06) execute(p *Plan, r *simkit.Run) *simkit.Violation {
 		if idx < 1 {
 			idx = 1
 		}
-		t := &bqTask{q: q, min: idx, lastRes: qr.Result + "|" + qr.Err}
+		t := &bqTask{q: q, min: idx, lastRes: qr.Result + "|" + qr.Err, received: qr.Result + "|" + qr.Err}
 		t.start(fs)
 		tasks = append(tasks, t)
 	}
@@ -286,14 +289,14 @@ func (C06) execute(p *Plan, r *simkit.Run) *simkit.Violation {
 			case <-t.done:
 				r.Hit("probe.blocking-query-returned")
 				if t.err != nil {
-					t.lastRes = t.res
+					t.lastRes, t.received = t.res, t.res
 				}
 				if t.err == nil {
 					if t.idx == 0 {
 						viol = mk("index-zero", "reported-index-never-zero", what, fmt.Sprintf("blocking query %s returned index 0", t.q.Name))
 						return
 					}
-					t.lastRes = t.res
+					t.lastRes, t.received = t.res, t.res
 					if t.idx > t.min {
 						t.min = t.idx
 					}
